@@ -14,8 +14,8 @@ pub struct SetIter<T> { _t: PhantomData<T> }
 pub type VarMapping = HashMap<String, usize>;
 
 // opaque stand-ins
-#[derive(Clone, Debug, Default, PartialEq, Eq, Hash)]
-pub struct StringName { _x: u8 }
+//@@ TYPE src/check/name/string_name/mod.rs | struct | StringName | strip_derive=PartialOrd,Ord
+impl Default for StringName { fn default() -> Self { unimplemented!() } }
 #[derive(Clone, Debug, Default, PartialEq, Eq, Hash)]
 pub struct TrueName { _x: u8 }
 //@@ TYPE src/check/name/mod.rs | struct | Name
